@@ -32,7 +32,7 @@ pub const PAUSE_SITES: &[u32] = &[
 ];
 
 pub fn draw_cfg(rng: &mut Rng, only: Option<&str>, lane: Lane) -> Cfg {
-    let kinds: Vec<Kind> = chan::MULTI_KINDS.iter().copied().filter(|k| only.map(|o| k.name() == o).unwrap_or(true)).collect();
+    let kinds: Vec<Kind> = chan::MULTI_KINDS.iter().copied().filter(|k| only.map(|o| k.name() == o).unwrap_or(true)).filter(|k| !(cfg!(miri) && *k == Kind::MultiMmap)).collect();   // (Miri cannot interpret file-backed mmap)
     let kind = *rng.pick(&kinds);
     let droppy = kind != Kind::MultiMmap && rng.chance(1, 5);
     let (n, m) = *rng.pick(&chan::cfgs_for(kind, droppy));
